@@ -18,31 +18,31 @@ CLAIMED = {
     "C13": dict(
         category="fault_enumeration",
         technique="deviation-bounded fault enumeration: all valid streams up to length 3/4 over 8 frames x all placements of d = 0,1,2(,3) junk lines from a 16-symbol alphabet, file source and scripted TCP peer, on the real reader thread; oracle = table equality with the clean stream",
-        text="Valid streams (all sequences up to length 3, 4 in thorough, over 8 frames of two aircraft, plus three recorded excerpts) are perturbed by inserting junk lines (empty, CR, wrong digit counts, truncated frame, text, NUL, invalid UTF-8 of four kinds, 70 KiB lines, bad-parity frame) at every combination of positions with d = 0, 1, 2 deviations (3 in thorough); the table must equal the clean stream's table bit for bit and the reader must end Ok; a 26-frame stream under -d 0 (two sweeps) checks that junk does not shift the sweep cadence, and junk lines of exactly / just below / just above buffer sizes (4 KiB..128 KiB, LF and CR LF) are inserted at every position. The TCP source is exercised with a scripted loopback peer for streams up to length 2 with d <= 1.",
+        text="Valid streams (all sequences up to length 3, 4 in thorough, over 8 frames of two aircraft, plus three recorded excerpts) are perturbed by inserting junk lines (empty, CR, wrong digit counts, truncated frame, text, NUL, invalid UTF-8 of four kinds, 70 KiB lines, bad-parity frame) at every combination of positions with d = 0, 1, 2 deviations (3 in thorough); the table must equal the clean stream's table bit for bit and the reader must end Ok; a 26-frame stream under -d 0 (two sweeps) checks that junk does not shift the sweep cadence, junk lines of exactly / just below / just above buffer sizes (4 KiB..2 MiB, LF and CR LF) are inserted at every position, and over-long junk lines whose tail behind every 2^k boundary is itself a well-formed frame must not be read as that frame. The TCP source is exercised with a scripted loopback peer for streams up to length 2 with d <= 1.",
         note="Trusted: frozen clock (so equal tables include equal time stamps). Junk outside the 16-symbol alphabet and more than 2 (3) insertions are not covered.",
         design="DESIGN.md §5 C13", engine="E3 fault enumeration"),
     "C14": dict(
         category="exploration",
         technique="bounded-exhaustive enumeration of all 32 -i subsets (3 spellings) x ~220 row states covering every column blank/min/max/typical/negative/fractional, rendered by the real Planes::print and the real CLI, against an independent column/cell oracle",
-        text="For every subset of the five column groups and every row state of a catalogue that puts each printable field through blank, minimum, largest-fitting, typical, negative and fractional values (with the other fields all blank and all filled), the real print routine is run with stdout captured; the header must list exactly the groups requested, row/header/separator must have equal display width whenever all values fit, and cutting the row at the header's column boundaries must give, per column, that parameter's value (numbers parsed back, right-aligned; text exact, left-aligned; blank when unknown). Tables reached by frames are checked the same way through the real release CLI with a frozen clock, under all three spellings of -i; the catalogue includes the emergency squawks 7500/7600/7700.",
+        text="For every subset of the five column groups and every row state of a catalogue that puts each printable field through blank, minimum, largest-fitting, typical, negative and fractional values (with the other fields all blank and all filled), the real print routine is run with stdout captured; the header must list exactly the groups requested, row/header/separator must have equal display width whenever all values fit, and cutting the row at the header's column boundaries must give, per column, that parameter's value (numbers parsed back, right-aligned; text exact, left-aligned; blank when unknown). Tables reached by frames are checked the same way through the real release CLI with a frozen clock, under all three spellings of -i; the catalogue includes the emergency squawks 7500/7600/7700, and rows wider than the header (every multi-byte source marker at the cut, singly and in pairs) must print without ending the reader.",
         note="Trusted: the independent column list per -i letter. One-character source markers in separator positions are not judged. Values that do not fit their column are excluded from the width rule (as stated).",
         design="DESIGN.md §5 C14", engine="E4 render + CLI seam"),
     "C15": dict(
         category="exploration",
         technique="bounded-exhaustive enumeration of all tables of 1..4(5) rows over 6 key-value classes (incl. blanks, ties, same-integer floats) x all -o strings of length <= 2(3) over 12 key letters, printed by the real Planes::print, permutation and monotonicity oracle",
-        text="Every table of up to 4 rows (5 thorough) whose sort-key field takes every combination of {blank, low, mid, tie, same-integer neighbour, high} is printed under every -o string up to length 2 (3 thorough) over the twelve key letters (plus '', 'x', 'sx'; as one -o and as repeated -o): the address column must be a permutation of the table, the last recognised key must be monotone over the rows where it is known, and without a recognised key the rows must be in ascending address order; consecutive prints use different address sets, and three 40-frame streams drawn after every frame must list, at every refresh, exactly the table of that moment.",
+        text="Every table of up to 4 rows (5 thorough) whose sort-key field takes every combination of {blank, low, mid, tie, same-integer neighbour, high} is printed under every -o string up to length 2 (3 thorough) over the twelve key letters (plus '', 'x', 'sx'; as one -o and as repeated -o): the address column must be a permutation of the table, the last recognised key must be monotone over the rows where it is known, and without a recognised key the rows must be in ascending address order; emergency squawks are part of the alphabet; consecutive prints use different address sets, and three 40-frame streams drawn after every frame must list, at every refresh, exactly the table of that moment.",
         note="Trusted: direction is judged only where the statement gives it (s, a ascending, A descending); v/V, N/S, W/E, d/D, c may be monotone either way.",
         design="DESIGN.md §5 C15", engine="E4 render"),
     "C18": dict(
         category="fault_enumeration",
-        technique="fault-sequence enumeration: every script of length <= 4 (5) over seven TCP peer behaviours (incl. a connection that stays healthy for 6 s of virtual monotonic time and long non-UTF-8 junk), run against the real reader thread with a scripted loopback peer and a gated sleep, oracle = liveness, one 5 s pause per failed attempt, final table equal to the file source's",
-        text="Every sequence up to length 4 (2,801 scripts; 5 in thorough: 19,608) over {refuse, accept+close, accept+frames+close, accept+partial line+reset, accept+junk+close, accept+frames+healthy for 6 s+close, accept+long non-UTF-8 junk+close}, followed by a healthy connection, is played by a scripted loopback peer against the real TCP reader; the interposed sleep records every pause and blocks until the script releases it, so each attempt is a sequenced event. The reader must stay alive, pause exactly once for about 5 s after each failed attempt, and end with the table the file source produces from the same lines (every aircraft learned earlier still present); the partial line is varied over all 27 prefix lengths; five scripts really pause 1.3 s / 2.6 s in the middle of a line; every script up to length 2 is repeated under -d 0, -d 1, -U -R and with the table drawn after every frame. Thorough repeats the length-1 scripts against the real CLI with real pauses.",
-        note="Trusted: clock_nanosleep and CLOCK_MONOTONIC interposition (self-tested at start-up); elapsed time inside the TCP loop is virtual. Real network timing below the granularity connect/accept/send/close/reset is not explored; a partial line may or may not reach the reader before the reset (both admitted).",
+        technique="fault-sequence enumeration: every script of length <= 4 (5) over seven TCP peer behaviours (incl. a connection that stays healthy for 6 s of virtual time and long non-UTF-8 junk), plus connections that stay open and silent beyond every socket time-out the reader sets, run against the real reader thread with a scripted loopback peer, gated sleeps, a virtual clock and compressed socket time-outs, oracle = liveness, one 5 s pause per failed attempt, final table equal to the file source's",
+        text="Every sequence up to length 4 (2,801 scripts; 5 in thorough: 19,608) over {refuse, accept+close, accept+frames+close, accept+partial line+reset, accept+junk+close, accept+frames+healthy for 6 s+close, accept+long non-UTF-8 junk+close}, followed by a healthy connection, is played by a scripted loopback peer against the real TCP reader; the interposed sleep records every pause and blocks until the script releases it, so each attempt is a sequenced event. The reader must stay alive, pause exactly once for about 5 s after each failed attempt, and end with the table the file source produces from the same lines (every aircraft learned earlier still present); the partial line is varied over all 27 prefix lengths; nine scripts really pause 1.3-3.6 s in the middle of a line (also under -u 1 / -u 0); 24 scripts keep a healthy connection silent for 1.5 x the longest socket time-out the reader installed (time-outs are recorded and compressed 100:1 by the interposed setsockopt), at a line boundary and mid-line, fresh and after each kind of fault, and then continue on the same connection; every script up to length 2 is repeated under -d 0, -d 1, -U -R and with the table drawn after every frame. Thorough repeats the length-1 scripts against the real CLI with real pauses and two silent-connection scripts with 35 s of real silence and uncompressed time-outs.",
+        note="Trusted: clock_gettime, clock_nanosleep and setsockopt interposition (self-tested at start-up); elapsed time inside the TCP loop is virtual and the faked wall clock follows it. Waiting mechanisms other than thread::sleep and socket time-outs (poll/epoll timers, a watchdog thread on a condition variable) would only be seen by the real-time scripts. Real network timing below the granularity connect/accept/send/close/reset is not explored; a partial line may or may not reach the reader before the reset (both admitted).",
         design="DESIGN.md §5 C18", engine="E3 fault enumeration"),
     "C10": dict(
         category="model_checking",
-        technique="explicit-state search of the Comm-B gating machine (28 actions, all orders to depth 4/5 x 4 option sets, each transition on the real reader thread) + exhaustive one-field-at-a-time register sweeps, against a reference gate/validity/Doc 9871 decoder",
-        text="Model GATE explores every order of capability reports (DF11 CA 0/3/4/5/7, DF17), BDS 1,7 advertisements (five subsets, one with a reserved bit) and data replies (2,0; 3,0 x3; valid 4,0; 5,0 right/left turn; 6,0 climb/descent; 5,0 with a status bit clear; 4,0 with a reserved bit) for one aircraft plus a bystander, to depth 4 (5 thorough) under {default,-R,-U,-U -R}; on every transition each MB-derived field group may change only if the reference gate of the pre-state and the register's validity allow it and must then equal the reference decoding; plausible registers must be decoded. Continuous-run conformance holds at the leaves. The register sweeps run every value field of 4,0/5,0/6,0 over its whole range around three baselines, a grid of registers valid in both the 5,0 and the 6,0 layout, all 32 status-bit subsets, every reserved bit, BDS 1,7 words, under open and closed gates (and the full GS x TAS product in thorough).",
+        technique="explicit-state search of the Comm-B gating machine (38 actions, all orders to depth 4/5 x 4 option sets, each transition on the real reader thread) + exhaustive one-field-at-a-time register sweeps, against a reference gate/validity/Doc 9871 decoder",
+        text="Model GATE explores every order of capability reports (DF11 CA 0/3/4/5/7, DF17), BDS 1,7 advertisements (five subsets, one with a reserved bit) and data replies (2,0; 3,0 x3; valid 4,0; 5,0 right/left turn; 6,0 climb/descent; 5,0 with a status bit clear; 4,0 with a reserved bit; a slow 5,0; a 5,0 that is also 6,0-shaped; replies with flight status 5/7), five BDS 1,0 data-link capability reports and an ADS-B velocity squitter for one aircraft plus a bystander, to depth 4 (5 thorough) under {default,-R,-U,-U -R}; on every transition each MB-derived field group may change only if the reference gate of the pre-state and the register's validity allow it and must then equal the reference decoding; plausible registers must be decoded. Continuous-run conformance holds at the leaves. The register sweeps run every value field of 4,0/5,0/6,0 over its whole range around three baselines, a grid of registers valid in both the 5,0 and the 6,0 layout, all 32 status-bit subsets, every reserved bit, BDS 1,7 words, under open and closed gates, on rows created by a DF20 with flight status 5 and after an ADS-B velocity squitter and BDS 1,0 reports (and the full GS x TAS product in thorough); two BDS 1,0 reports differing in any single MB bit (every bit 9..56 outside 10-14, both polarities, 1,7 before or between them) must leave every baseline 4,0/5,0/6,0 register decodable.",
         note="Trusted: refmodel/bds.rs (layouts of DESIGN App. B). Admissible sets: floor or truncation for signed scaled values; BDS 4,0 mode/source status unconstrained in the only-if direction; lenient branch when weak/strong validity of an earlier register disagree. Products of more than one field away from a baseline are not covered (except GS x TAS).",
         design="DESIGN.md §5 C10", engine="E2 explorer + E1 sweep"),
     "C19": dict(
@@ -54,7 +54,7 @@ CLAIMED = {
     "C03": dict(
         category="exploration",
         technique="complete-domain enumeration of all 2^24 addresses x 9 formats and all weight<=2 payload families on the real get_icao/reader thread vs an independent CRC-24; explicit-state search of model ROW (3 aircraft, depth 3) for row isolation",
-        text="Address recovery is executed for every one of the 2^24 addresses in each of the nine formats (three payloads in thorough) and for every payload of Hamming weight <= 2 (which exercises every bit of the polynomial and shift schedule) and compared with an independent bit-serial CRC-24; a stride of the same families goes through get_message and the reader thread (row key). Row isolation is decided by explicit-state search: every sequence of 80 frames/ticks for three colliding aircraft to depth 3 is executed on the real reader thread and every transition must leave all rows other than the frame's own bit-identical. Back-to-back 'region pair' families (frames equal except in one region) run on fresh threads to expose decoder state that survives between frames.",
+        text="Address recovery is executed for every one of the 2^24 addresses in each of the nine formats (three payloads in thorough) and for every payload of Hamming weight <= 2 (which exercises every bit of the polynomial and shift schedule) and compared with an independent bit-serial CRC-24; a stride of the same families goes through get_message and the reader thread (row key). Row isolation is decided by explicit-state search: every sequence of 80 frames/ticks for three colliding aircraft to depth 3 is executed on the real reader thread and every transition must leave all rows other than the frame's own bit-identical. Back-to-back 'region pair' families (frames equal except in one region) run on fresh threads to expose decoder state that survives between frames. XOR-neighbour isolation: while aircraft A is tracked, a frame of each of 14 formats/registers from A xor d - d every one-byte value in each byte position and the CRC syndrome of every single data bit of a 56- and a 112-bit frame - must create its own row and leave A's row bit-identical (default, -U, -R).",
         note="Trusted: reference CRC-24 and address rule. Interleavings deeper than 3 over the 80-action alphabet are not covered.",
         design="DESIGN.md §5 C03", engine="E1 sweep + E2 explorer"),
     "C08": dict(
@@ -72,7 +72,7 @@ CLAIMED = {
     "C12": dict(
         category="model_checking",
         technique="explicit-state search of model EXPIRY (160 parameter sets x 7-8 actions incl. burst and ticks at delete_after +-1 ms, depth 6/8) on the real reader thread with the true last-heard ages as history variable",
-        text="For delete_after in {1,5,60,600}, default/-U, ten refreshing formats and with/without -f, every sequence of {frame of A, burst of 12 frames of B (forces the sweep), one frame of B, filtered-out frame, silences of 1 s / d-1 ms / d / d+1 ms} to depth 6 (8 thorough) is executed; after every step: an accepted frame puts its aircraft in the table with age 0, an aircraft heard < d s ago is present, after a burst no aircraft silent >= d s remains, a frame from a swept aircraft yields exactly the row it yields in an empty table, and the size bound holds; twelve parameter sets run with the table drawn after every frame.",
+        text="For delete_after in {1,5,60,600}, default/-U, ten refreshing formats and with/without -f, every sequence of {frame of A, burst of 12 frames of B (forces the sweep), one frame of B, filtered-out frame, silences of 1 s / d-1 ms / d / d+1 ms} to depth 6 (8 thorough) is executed; after every step: an accepted frame puts its aircraft in the table with age 0, an aircraft heard < d s ago is present, after a burst no aircraft silent >= d s remains, a frame from a swept aircraft yields exactly the row it yields in an empty table, and the size bound holds; twelve parameter sets run with the table drawn after every frame, and the sweep cadence is re-checked in crowded tables (100+ bystander rows) and for rows that carry nothing but an address.",
         note="Trusted: time is simulated by shifting every public time stamp under the frozen clock (exact millisecond ages). The per-run sweep counter starts at 0, so 'at most 12 further frames' is checked as a 12-frame burst.",
         design="DESIGN.md §5 C12", engine="E2 explorer"),
     "C05": dict(
